@@ -256,3 +256,104 @@ def markov_helper(repo, rep):
                         ok2 = "rate=%s" % call in t and "ifrate>0:" in t and "returnrandom.expovariate(rate)" in t and "returnfloat('Inf')" in t
                     rep.ob("MARKOV", ok2, "fast_SIR general path: %s ~ Exp(%s of its own arguments), Inf for rate 0" % (nm, rf), func=h,
                            node=g2.node if g2 else h.node, construct="%s body" % nm, detail="" if ok2 else "delay rule of the general path changed")
+
+
+# ---------------------------------------------------------------------------
+FALSY_OK = {"rho", "initial_infecteds", "initial_recovereds", "Y0", "X0", "XY0", "XX0", "nodelist", "Ks", "phiS0", "phiR0",
+            "Sk0", "IC", "transmissibility", "tmin", "tau", "gamma", "p", "R0"}
+
+
+def truthy_rule(repo, rep, modules):
+    rep.rule("TRUTHY", "an optional argument whose legitimate values include falsy ones (rho=0, node 0, an empty collection, "
+                       "an array) is never used as a truth value (`if x`, `x or d`, `not x`, `x and y`): only `is None` tests decide "
+                       "whether it was given")
+    n = 0
+    for f in repo.all_funcs():
+        if f.module not in modules or not in_scope(f) or f.parent is not None:
+            continue
+        cands = {p for p in f.all_params if p in FALSY_OK}
+        if not cands:
+            continue
+        n += 1
+        rep.analysed(f)
+        bad = []
+
+        def truth_uses(e):
+            if isinstance(e, ast.Name) and e.id in cands:
+                bad.append(e)
+            elif isinstance(e, ast.BoolOp):
+                for v in e.values:
+                    truth_uses(v)
+            elif isinstance(e, ast.UnaryOp) and isinstance(e.op, ast.Not):
+                truth_uses(e.operand)
+        for node in own_nodes(f.node):
+            if isinstance(node, (ast.If, ast.While, ast.IfExp, ast.Assert)):
+                truth_uses(node.test)
+            elif isinstance(node, ast.BoolOp):
+                for v in node.values:
+                    if isinstance(v, ast.Name) and v.id in cands:
+                        bad.append(v)
+            elif isinstance(node, ast.comprehension):
+                for c in node.ifs:
+                    truth_uses(c)
+        seen = set()
+        for b in bad:
+            if (b.id, b.lineno) in seen:
+                continue
+            seen.add((b.id, b.lineno))
+            rep.ob("TRUTHY", False, "%s: `%s` used as a truth value" % (f.qual, b.id), func=f, node=b,
+                   construct="%s: truthiness of %s" % (f.name, b.id),
+                   detail="`%s` is tested for truthiness: a legitimate falsy value (0, node 0, empty collection; arrays raise) is treated "
+                   "as `not given`" % b.id)
+        if not bad:
+            rep.ob("TRUTHY", True, "%s: optional arguments are only tested with `is None`" % f.qual, func=f, construct="%s clean" % f.name)
+    rep.floor("TRUTHY", "functions with such parameters", n, 20)
+
+
+def identity_rule(repo, rep, modules):
+    rep.rule("IDENT", "no `is` / `is not` comparison between two values that can be node labels or data (identity differs from "
+                      "equality for tuples, strings built at run time, floats, large ints)")
+    n = 0
+    for f in repo.all_funcs():
+        if f.module not in modules or not in_scope(f):
+            continue
+        bad = []
+        for node in own_nodes(f.node):
+            if isinstance(node, ast.Compare):
+                left = node.left
+                for op, right in zip(node.ops, node.comparators):
+                    if isinstance(op, (ast.Is, ast.IsNot)):
+                        n += 1
+                        single = any(isinstance(x, ast.Constant) and (x.value is None or x.value is True or x.value is False or x.value is Ellipsis)
+                                     for x in (left, right))
+                        if not single:
+                            bad.append(node)
+                    left = right
+        for b in bad:
+            rep.ob("IDENT", False, "%s: identity comparison of values" % f.qual, func=f, node=b, construct=short(b, 80),
+                   detail="`%s` compares object identity, not equality: equal node labels that are distinct objects are treated as different" % short(b, 60))
+        if not bad:
+            rep.ob("IDENT", True, "%s: `is` only against None/True/False" % f.qual, func=f, construct="%s clean" % f.name)
+    rep.count("IDENT:is-comparisons seen", n)
+
+
+def discrete_history_guard(repo, rep):
+    rep.rule("DISC", "discrete-time full data: the history entries of a step are written whenever the step's time does not exceed tmax")
+    for name in ("discrete_SIR", "basic_discrete_SIS"):
+        f = repo.f(name)
+        rep.analysed(f)
+        n = 0
+        for c in walk_function(f.node):
+            st = c.stmt
+            if isinstance(st, ast.Expr) and isinstance(st.value, ast.Call) and _k(st.value.func).startswith("node_history[") \
+                    and _k(st.value.func).endswith("[0].append") and c.loops:
+                n += 1
+                tv = _k(st.value.args[0])
+                guards = [(fx, pol) for fx, pol in c.facts if "tmax" in _k(fx) and tv in _k(fx)]
+                ok = all(pol and isinstance(fx, ast.Compare) and _k(fx.left) == tv and isinstance(fx.ops[0], ast.LtE)
+                         and _k(fx.comparators[0]) == "tmax" for fx, pol in guards)
+                rep.ob("DISC", ok, "%s: history entry at %s written iff %s <= tmax" % (name, tv, tv), func=f, node=st,
+                       construct="%s: %s under %s" % (name, _k(st), [_k(fx) for fx, pol in guards]),
+                       detail="" if ok else "the step that lands exactly on tmax is reported in the series and the transmissions but "
+                       "left out of the node histories")
+        rep.floor("DISC", "%s history appends" % name, n, 2)
